@@ -53,3 +53,47 @@ package main
 //@   call fmt.Fprintf "OK" requires [C20] ok-only-without-error: err == nil
 //@   call fmt.Fprintf "read-only" requires [C20] read-only-means-sunset: Is(err, errLogSunset) && err != nil
 //@   call http.ResponseWriter.WriteHeader requires [C20] reports-status: c_statusCode == status
+
+// ---- C19: read path
+
+//@ func skylight.filesOnlyFS.Open props C19
+//@   call fs.FS.Open requires [C19] same-name: c_name == name && c_recv == f.fsys
+//@   returns [C19] regular-files-only: ret1 == nil ==> ret0 == file && !isDirFI(info)
+//@ assume func fs.File.Stat
+//@   ensures ret1 == nil ==> ret0 != nil
+
+// fatalError logs and calls os.Exit(1): it never returns.
+//@ assume func skylight.fatalError
+//@   ensures false
+
+//@ func skylight.main noreturn props C19
+//@   call http.FileServerFS requires [C19] confined-files-only: typeof(c_root) == typeid("skylight.filesOnlyFS") && cast(c_root, "skylight.filesOnlyFS").fsys == rootFSOf(root)
+//@   call http.FileServerFS requires [C19] configured-directory: root == rootOf(lc.LocalDirectory) || root == rootOf(wc.LocalDirectory)
+
+//@ func skylight.main@"GET /tile/{tile...}" props C19
+//@   init gHdr == gHdr
+//@   call http.Handler.ServeHTTP requires [C19] data-tile-headers: tile.L == -1 ==> gHdr["Content-Encoding"] == "gzip" && gHdr["Content-Type"] == "application/octet-stream"
+//@   call http.Handler.ServeHTTP requires [C19] names-tile-headers: tile.L == -2 ==> gHdr["Content-Encoding"] == "gzip" && gHdr["Content-Type"] == "application/jsonl; charset=utf-8"
+//@   call http.Handler.ServeHTTP requires [C19] hash-tile-headers: (tile.L != -1 && tile.L != -2) ==> gHdr["Content-Encoding"] == old(gHdr)["Content-Encoding"] && gHdr["Content-Type"] == "application/octet-stream"
+//@   call http.Handler.ServeHTTP requires [C19] tile-cache-policy: gHdr["Cache-Control"] == "public, max-age=604800, immutable"
+//@   call http.Handler.ServeHTTP requires [C19] tile-parsed-from-path: tilePath == "tile/" + pathValueOf(r, "tile")
+//@ pure func pathValueOf(r Ref, name string) string
+//@ assume func http.(*Request).PathValue params name
+//@   ensures ret == pathValueOf(recv, name)
+
+//@ func skylight.main@"GET /checkpoint" props C19
+//@   call http.Handler.ServeHTTP requires [C19] checkpoint-headers: gHdr["Cache-Control"] == "no-store" && gHdr["Content-Type"] == "text/plain; charset=utf-8"
+
+//@ func skylight.main@"GET /issuer/{issuer}" props C19
+//@   call http.Handler.ServeHTTP requires [C19] issuer-headers: gHdr["Cache-Control"] == "public, max-age=604800, immutable" && gHdr["Content-Type"] == "application/pkix-cert"
+
+//@ func skylight.main@"GET /log.v3.json" props C19
+//@   call http.Handler.ServeHTTP requires [C19] json-headers: gHdr["Content-Type"] == "application/json"
+
+//@ func skylight.newRateLimitHandler$1 props C19
+//@   call http.Error requires [C19] error-drops-content-headers: gHdr["Content-Encoding"] == "" && gHdr["Cache-Control"] == "" && c_code == 429
+
+//@ func skylight.main@"/{origin}/" props C19
+//@   call context.WithValue requires [C19] witness-file-prefix: typeof(c_key) == typeid("skylight.filePrefixContextKey") ==> c_val == iface("/" + origin)
+//@ func skylight.main@"/mirror/{origin}/" props C19
+//@   call context.WithValue requires [C19] mirror-file-prefix: typeof(c_key) == typeid("skylight.filePrefixContextKey") ==> c_val == iface("/mirror/" + origin)
